@@ -674,3 +674,261 @@ Proof.
   - now apply unwind_new_inv.
   - rewrite addv_let. apply VInvU_addv'; auto. apply vec_sound_intro; [exact A|congruence].
 Qed.
+
+Lemma inv_XDropV k s vi : VInvU k s -> VInvU k (fst (vstep_core k s (XDropV vi))).
+Proof.
+  intros HI. unfold vstep_core. open_v HI Hg. pose proof (vec_sound_vsound _ _ Hvs) as Hs.
+  pose proof (drop_vec_inv k (wd s) v R Hs Hown) as Hd.
+  destruct (drop_vec k (wd s) v) as [[] w1|w1]; cbn [resw fst] in *; eapply close_none0; eauto.
+Qed.
+
+Lemma inv_XReserve k s vi m : VInvU k s -> VInvU k (fst (vstep_core k s (XReserve vi m))).
+Proof.
+  intros HI. unfold vstep_core. open_v HI Hg. pose proof (vec_sound_vsound _ _ Hvs) as Hs.
+  destruct k as [c|]; [exact HI|].
+  destruct (thin_reserve (wd s) v m) as [w1 v1] eqn:Er. cbn [fst].
+  apply thin_reserve_spec in Er; [|exact Hs]. destruct Er as ((S1 & _) & S2 & S3 & S4 & S5 & S6).
+  eapply close_setv0; eauto; [now apply vec_sound_intro|]. rewrite S5. eapply own_same; eauto.
+Qed.
+
+Lemma inv_XReserveExact k s vi m : VInvU k s -> VInvU k (fst (vstep_core k s (XReserveExact vi m))).
+Proof.
+  intros HI. unfold vstep_core. open_v HI Hg. pose proof (vec_sound_vsound _ _ Hvs) as Hs.
+  destruct k as [c|]; [exact HI|].
+  destruct (thin_reserve_exact (wd s) v m) as [w1 v1] eqn:Er. cbn [fst].
+  apply thin_reserve_exact_spec in Er; [|exact Hs]. destruct Er as ((S1 & _) & S2 & S4 & S5 & S6).
+  eapply close_setv0; eauto; [now apply vec_sound_intro|]. rewrite S5. eapply own_same; eauto.
+Qed.
+
+Lemma inv_XShrinkTo k s vi m : VInvU k s -> VInvU k (fst (vstep_core k s (XShrinkTo vi m))).
+Proof.
+  intros HI. unfold vstep_core. open_v HI Hg. pose proof (vec_sound_vsound _ _ Hvs) as Hs.
+  destruct k as [c|]; [exact HI|].
+  destruct (Nat.leb (vcapn v) m); [exact HI|].
+  destruct (set_cap (wd s) v (Nat.max m (vlen v))) as [w1 v1] eqn:Er. cbn [fst].
+  apply set_cap_spec in Er; [|exact Hs|lia]. destruct Er as ((S1 & _) & S2 & S4 & S5 & S6).
+  eapply close_setv0; eauto; [now apply vec_sound_intro|]. rewrite S5. eapply own_same; eauto.
+Qed.
+
+Lemma inv_XShrinkToFit k s vi : VInvU k s -> VInvU k (fst (vstep_core k s (XShrinkToFit vi))).
+Proof.
+  intros HI. unfold vstep_core. open_v HI Hg. pose proof (vec_sound_vsound _ _ Hvs) as Hs.
+  destruct k as [c|]; [exact HI|].
+  destruct (Nat.eqb (vlen v) (vcapn v)); [exact HI|].
+  destruct (set_cap (wd s) v (vlen v)) as [w1 v1] eqn:Er. cbn [fst].
+  apply set_cap_spec in Er; [|exact Hs|lia]. destruct Er as ((S1 & _) & S2 & S4 & S5 & S6).
+  eapply close_setv0; eauto; [now apply vec_sound_intro|]. rewrite S5. eapply own_same; eauto.
+Qed.
+
+(** the identities handed out by a double-ended partial consumption of [a, b) *)
+Lemma take_both_ok w v v0 a b f bk : slots v = slots v0 -> vsound v0 -> a + f + bk <= b -> b <= vlen v0 ->
+  take_ids w v a f = (w, firstn f (skipn a (elems v0))) /\
+  take_ids_back w v b bk = (w, rev (firstn bk (skipn (b - bk) (elems v0)))).
+Proof.
+  intros Hsl Hs H1 H2. split.
+  - apply take_ids_ok. rewrite (slots_from_ext v0 v a f Hsl). apply slots_from_sound; [exact Hs|lia].
+  - apply take_ids_back_ok; [lia|]. rewrite (slots_from_ext v0 v (b - bk) bk Hsl). apply slots_from_sound; [exact Hs|lia].
+Qed.
+
+Lemma inv_XIntoIter k s vi front back : VInvU k s -> VInvU k (fst (vstep_core k s (XIntoIter vi front back))).
+Proof.
+  intros HI. unfold vstep_core. open_v HI Hg. pose proof (vec_sound_vsound _ _ Hvs) as Hs.
+  destruct k as [c|]; [|exact HI]. pose proof Hs as [Hl He].
+  set (n := vlen v) in *. set (f := Nat.min front n). set (bk := Nat.min back (n - f)).
+  destruct (take_both_ok (wd s) v v 0 n f bk eq_refl Hs ltac:(lia) ltac:(lia)) as [T1 T2].
+  rewrite T1. cbv beta iota. rewrite T2. cbv beta iota.
+  set (ids1 := firstn f (skipn 0 (elems v))). set (ids2 := rev (firstn bk (skipn (n - bk) (elems v)))).
+  assert (own (resw (drop_range Stop (wd s) v f (n - bk - f))) ((ids1 ++ ids2) ++ R)) as Hd.
+  { eapply (drop_range_inv Stop (wd s) v v f (n - bk - f)); [reflexivity|exact Hs|fold n; lia|reflexivity|].
+    eapply own_sub; [exact Hown|]. intros x. unfold ids1, ids2. cnt_norm.
+    rewrite (cnt_split5 (elems v) 0 f (n - bk - f) bk x). cbn [Nat.add].
+    replace (f + (n - bk - f)) with (n - bk) by lia. lia. }
+  destruct (drop_range Stop (wd s) v f (n - bk - f)) as [[] w4|w4]; cbn [resw fst] in *; eapply close_none; eauto.
+Qed.
+
+Lemma inv_XDrain k s vi b1 b2 front back forget : VInvU k s -> VInvU k (fst (vstep_core k s (XDrain vi b1 b2 front back forget))).
+Proof.
+  intros HI. unfold vstep_core. open_v HI Hg. pose proof (vec_sound_vsound _ _ Hvs) as Hs.
+  destruct (to_range b1 b2 (vlen v)) as [[a b]|] eqn:Et; [|exact HI]. apply to_range_ok in Et. pose proof Hs as [Hl He].
+  set (n := vlen v) in *. rewrite setlen_ok by lia. cbv beta iota.
+  set (f := Nat.min front (b - a)). set (bk := Nat.min back (b - a - f)). set (v1 := mkV (slots v) a).
+  destruct (take_both_ok (wd s) v1 v a b f bk eq_refl Hs ltac:(lia) ltac:(lia)) as [T1 T2].
+  rewrite T1. cbv beta iota. rewrite T2. cbv beta iota.
+  set (ids1 := firstn f (skipn a (elems v))). set (ids2 := rev (firstn bk (skipn (b - bk) (elems v)))).
+  destruct (elems_mk_le v a Hs ltac:(lia)) as [He1 Hs1]. fold v1 in He1, Hs1.
+  assert (forall x, cnt (elems v) x = cnt (firstn a (elems v)) x + cnt ids1 x + cnt (firstn (b - bk - (a + f)) (skipn (a + f) (elems v))) x
+                                      + cnt ids2 x + cnt (skipn b (elems v)) x) as Hsplit.
+  { intros x. unfold ids1, ids2. cnt_norm. rewrite (cnt_split5 (elems v) a f (b - bk - (a + f)) bk x).
+    replace (a + f + (b - bk - (a + f))) with (b - bk) by lia. replace (b - bk + bk) with b by lia. lia. }
+  unfold drain_finish. destruct forget.
+  - cbn [fst]. eapply close_setv; eauto; [eapply vec_sound_same_cap; eauto|].
+    eapply own_sub; [exact Hown|]. rewrite He1. intros x. cnt_norm. rewrite (Hsplit x). lia.
+  - pose proof (drop_range_inv Continue (wd s) v1 v (a + f) (b - bk - (a + f)) _
+                  ((firstn a (elems v) ++ skipn b (elems v)) ++ (ids1 ++ ids2) ++ R) eq_refl Hs ltac:(fold n; lia) eq_refl) as Hd.
+    match type of Hd with ?P -> _ => assert P as HP; [|specialize (Hd HP); clear HP] end.
+    { eapply own_sub; [exact Hown|]. intros x. cnt_norm. rewrite (Hsplit x). lia. }
+    destruct (drop_range Continue (wd s) v1 (a + f) (b - bk - (a + f))) as [[] w1|w1]; cbn [resw] in Hd.
+    + cbn [vlen v1]. rewrite write_slots_ok by (rewrite slots_from_length; unfold vcapn, v1 in *; cbn [slots]; lia). cbv beta iota.
+      rewrite setlen_ok by (unfold vcapn, v1 in *; cbn [slots]; rewrite wrl_length; lia). cbv beta iota. cbn [fst slots].
+      rewrite (slots_from_ext v v1 b (n - b) eq_refl).
+      destruct (wrl_copy v1 v a b (n - b) Hs1 ltac:(cbn; lia) Hs ltac:(fold n; lia) ltac:(unfold vcapn, v1 in *; cbn [slots]; lia)) as (A & B & C).
+      cbv zeta in *. cbn [slots v1] in *.
+      eapply close_setv; eauto; [eapply vec_sound_same_cap; eauto|].
+      rewrite B. change (elems (mkV (slots v) a)) with (elems v1). rewrite He1, firstn_firstn, Nat.min_id.
+      rewrite (firstn_all_ge (skipn b (elems v))) by (rewrite skipn_length; lia). exact Hd.
+    + cbn [fst]. eapply close_setv; eauto; [eapply vec_sound_same_cap; eauto|].
+      eapply own_sub; [exact Hd|]. rewrite He1. csolve.
+Qed.
+
+Lemma inv_XSplitOff k s vi at_ : VInvU k s -> VInvU k (fst (vstep_core k s (XSplitOff vi at_))).
+Proof.
+  intros HI. unfold vstep_core. open_v HI Hg. pose proof (vec_sound_vsound _ _ Hvs) as Hs.
+  destruct (Nat.ltb (vlen v) at_) eqn:E1; [exact HI|]. apply Nat.ltb_ge in E1. pose proof Hs as [Hl He].
+  set (n := vlen v) in *.
+  assert (exists w0 c0, (match k with KInline c => (wd s, new_vec c) | KThin => thin_with_capacity (wd s) (n - at_) end) = (w0, new_vec c0)
+            /\ wsame (wd s) w0 /\ n - at_ <= c0 /\ match k with KInline c' => c0 = c' | KThin => True end) as (w0 & c0 & Eq & Hsm & Hc0 & Hk).
+  { destruct k as [c|].
+    - exists (wd s), c. split; [reflexivity|]. split; [apply wsame_refl|]. pose proof (vec_sound_cap _ _ Hvs). split; [lia|reflexivity].
+    - exists (ev_alloc (wd s)), (Nat.max (n - at_) THIN_MIN). split; [reflexivity|]. split; [wsame_tac|]. split; [lia|exact I]. }
+  rewrite Eq. destruct (new_vec_spec c0) as (N1 & N2 & N3 & N4).
+  rewrite write_slots_ok by (rewrite slots_from_length; lia). cbv beta iota.
+  rewrite setlen_ok by lia. cbv beta iota. rewrite setlen_ok by capsolve. cbv beta iota. rewrite addv_let. cbn [slots].
+  destruct (wrl_copy (new_vec c0) v 0 at_ (n - at_) N1 ltac:(lia) Hs ltac:(fold n; lia) ltac:(lia)) as (A & B & C).
+  cbv zeta in *. cbn [Nat.add] in *. cbn [firstn app] in B.
+  rewrite (firstn_all_ge (skipn at_ (elems v))) in B by (rewrite skipn_length; lia).
+  destruct (elems_mk_le v at_ Hs ltac:(lia)) as [He1 Hs1].
+  assert (own w0 (elems v ++ R)) as Ho0 by (eapply own_same; eauto).
+  assert (VInvU k (setv s vi (Some (mkV (slots v) at_)) w0)) as HI1.
+  { eapply close_setv0; eauto; [eapply vec_sound_same_cap; eauto|]. eapply own_sub; [exact Ho0|]. rewrite He1. intros x. cnt_norm.
+    rewrite (cnt_firstn_skipn (elems v) at_ x). lia. }
+  eapply VInvU_addv; [exact HI1| |exact Ho0|].
+  - apply vec_sound_intro; [exact A|]. destruct k; [congruence|exact I].
+  - intros x. rewrite B. pose proof (reach_setv0 s vi (Some v) (Some (mkV (slots v) at_)) w0 x (proj1 (getv_nth _ _ _) Hg)) as Hr.
+    cbn [oelems] in Hr. rewrite He1 in Hr. cnt_norm. specialize (HR x). rewrite (cnt_firstn_skipn (elems v) at_ x) in *. lia.
+Qed.
+
+Lemma append_go_inv k s vi oi v ov w v1 : VInvU k s -> getv s vi = Some v -> getv s oi = Some ov -> vi <> oi ->
+  vec_sound k v1 -> elems v1 = elems v -> vlen v1 = vlen v -> vlen v + vlen ov <= vcapn v1 -> own w (reachable s) ->
+  VInvU k (fst (let '(w2, v2) := write_slots w v1 (vlen v) (slots_from ov 0 (vlen ov)) in
+                let '(w3, v3) := setlen w2 v2 (vlen v + vlen ov) in
+                let '(w4, ov4) := setlen w3 ov 0 in
+                (setv (setv s vi (Some v3) w4) oi (Some ov4) w4, VUnit))).
+Proof.
+  intros HI Hg Hgo Hne Hvs1 He1 Hl1 Hc Ho. pose proof (vec_sound_vsound _ _ Hvs1) as Hs1.
+  pose proof HI as [Hall _]. pose proof (Hall _ _ Hgo) as Hvso. pose proof (vec_sound_vsound _ _ Hvso) as Hso.
+  rewrite write_slots_ok by (rewrite slots_from_length; lia). cbv beta iota.
+  rewrite setlen_ok by capsolve. cbv beta iota. rewrite setlen_ok by lia. cbv beta iota. cbn [fst slots].
+  rewrite <- Hl1. destruct (wrl_copy v1 ov (vlen v1) 0 (vlen ov) Hs1 ltac:(lia) Hso ltac:(lia) ltac:(lia)) as (A & B & C).
+  cbv zeta in *. cbn [skipn] in B. rewrite (firstn_all_ge (elems v1)) in B by (destruct Hs1; lia).
+  rewrite (firstn_all_ge (elems ov)) in B by (destruct Hso; lia).
+  destruct (elems_mk_le ov 0 Hso ltac:(lia)) as [Heo Hso']. cbn [firstn] in Heo.
+  rewrite setv_comm by exact Hne.
+  assert (VInvU k (setv s oi (Some (mkV (slots ov) 0)) w)) as HI1.
+  { eapply VInvU_setv0; [exact HI|exact Hgo| |exact Ho|].
+    - intros u Hu. inj Hu. eapply (vec_sound_same_cap k ov); eauto.
+    - intros x. cbn [oelems]. rewrite Heo, cnt_nil. lia. }
+  eapply VInvU_setv0; [exact HI1| | |exact Ho|].
+  - rewrite getv_setv_ne by congruence. exact Hg.
+  - intros u Hu. inj Hu. eapply (vec_sound_same_cap k v1); eauto.
+  - intros x. cbn [oelems]. rewrite B, He1. cnt_norm.
+    pose proof (reach_setv0 s oi (Some ov) (Some (mkV (slots ov) 0)) w x (proj1 (getv_nth _ _ _) Hgo)) as Hr.
+    cbn [oelems] in Hr. rewrite Heo, cnt_nil in Hr. lia.
+Qed.
+
+Lemma inv_XAppend k s vi oi : VInvU k s -> VInvU k (fst (vstep_core k s (XAppend vi oi))).
+Proof.
+  intros HI. unfold vstep_core. pose proof (VInvU_own _ _ HI) as Hown0. open_v HI Hg. pose proof (vec_sound_vsound _ _ Hvs) as Hs.
+  destruct (N.eqb vi oi) eqn:En; [exact HI|]. apply N.eqb_neq in En.
+  destruct (getv s oi) as [ov|] eqn:Hgo; [|exact HI].
+  destruct k as [c|].
+  - pose proof (vec_sound_cap _ _ Hvs) as Hcap.
+    destruct (Nat.ltb c (vlen v + vlen ov)) eqn:E1; [exact HI|]. apply Nat.ltb_ge in E1.
+    eapply append_go_inv; eauto. lia.
+  - destruct (thin_reserve (wd s) v (vlen ov)) as [w1 v1] eqn:Er.
+    apply thin_reserve_spec in Er; [|exact Hs]. destruct Er as ((S1 & _) & S2 & S3 & S4 & S5 & S6).
+    eapply append_go_inv; eauto; [now apply vec_sound_intro|eapply own_same; eauto].
+Qed.
+
+(** ** all operations *)
+Theorem vstep_core_invU k s o : VInvU k s -> VInvU k (fst (vstep_core k s o)).
+Proof.
+  intros HI. destruct o.
+  - now apply inv_XNew.
+  - now apply inv_XWithCap.
+  - now apply inv_XFromSlice.
+  - now apply inv_XFromIter.
+  - now apply inv_XPush.
+  - now apply inv_XTryPush.
+  - now apply inv_XPop.
+  - now apply inv_XPopIf.
+  - now apply inv_XInsert.
+  - now apply inv_XTryInsert.
+  - now apply inv_XRemove.
+  - now apply inv_XSwapRemove.
+  - now apply inv_XTruncate.
+  - now apply inv_XClear.
+  - now apply inv_XResize.
+  - now apply inv_XResizeWith.
+  - now apply inv_XExtendFromSlice.
+  - now apply inv_XExtendFromWithin.
+  - now apply inv_XExtendIter.
+  - now apply inv_XAppend.
+  - now apply inv_XSplitOff.
+  - now apply inv_XDrain.
+  - now apply inv_XIntoIter.
+  - now apply inv_XCloneV.
+  - now apply inv_XReserve.
+  - now apply inv_XReserveExact.
+  - now apply inv_XShrinkTo.
+  - now apply inv_XShrinkToFit.
+  - now apply inv_XDropV.
+Qed.
+
+Lemma vstep_fst k s o : fst (vstep k s o) = setw (fst (vstep_core k s o)) (set_unw (wd (fst (vstep_core k s o))) false).
+Proof. unfold vstep. destruct (vstep_core k s o) as [s1 u]. reflexivity. Qed.
+
+(** [VInv' k s := VInv k s /\ DFresh s]: the invariant of VecSpec strengthened by "a dropped identity is below the
+    allocation counter", without which [vi_drops] is not inductive (see VecCounterexample.v). *)
+Theorem vinit_inv' : forall k p, VInv' k (vinit p).
+Proof.
+  intros k p. apply VInv'_iff. split; [|reflexivity]. split.
+  - intros i v H. unfold getv, vinit in H. cbn [pool] in H. destruct (N.to_nat i); discriminate.
+  - split; [|split].
+    + split; cbn; try constructor; try tauto.
+    + constructor.
+    + intros x [].
+Qed.
+
+(** C14 + C15: soundness is preserved by every operation, whatever the panic position: nothing is assumed about [pan (wd s)] *)
+Theorem vstep_inv' : forall k s o, VInv' k s -> VInv' k (fst (vstep k s o)).
+Proof.
+  intros k s o H. apply VInv'_iff in H. destruct H as [HU _]. apply VInv'_iff. rewrite vstep_fst. split; [|reflexivity].
+  apply VInvU_setw_unw. now apply vstep_core_invU.
+Qed.
+
+Theorem vrun_inv' : forall k ops s, VInv' k s -> VInv' k (fst (vrun k s ops)).
+Proof.
+  intros k ops. induction ops as [|o r IH]; intros s H; cbn [vrun]; [exact H|].
+  pose proof (vstep_inv' k s o H) as H1. destruct (vstep k s o) as [s1 u]. cbn [fst] in H1.
+  specialize (IH s1 H1). destruct (vrun k s1 r) as [s2 us]. exact IH.
+Qed.
+
+(** the statements of the task, for the invariant [VInv] of VecSpec, on states that satisfy the extra clause *)
+Theorem vinit_inv : forall k p, VInv k (vinit p).
+Proof. intros k p. apply (vinit_inv' k p). Qed.
+
+Theorem vstep_inv : forall k s o, VInv k s -> DFresh s -> vop_ok o -> VInv k (fst (vstep k s o)) /\ DFresh (fst (vstep k s o)).
+Proof. intros k s o H1 H2 _. apply (vstep_inv' k s o). split; assumption. Qed.
+
+Theorem vrun_inv : forall k ops s, VInv k s -> DFresh s -> Forall vop_ok ops -> VInv k (fst (vrun k s ops)) /\ DFresh (fst (vrun k s ops)).
+Proof. intros k ops s H1 H2 _. apply (vrun_inv' k ops s). split; assumption. Qed.
+
+(** every state reachable from [vinit] is sound, for every panic position and every script *)
+Corollary vrun_sound : forall k p ops, VInv k (fst (vrun k (vinit p) ops)).
+Proof. intros k p ops. apply (vrun_inv' k ops (vinit p)). apply vinit_inv'. Qed.
+
+Print Assumptions vinit_inv.
+Print Assumptions vstep_inv'.
+Print Assumptions vstep_inv.
+Print Assumptions vrun_inv.
+Print Assumptions vrun_sound.
